@@ -94,8 +94,10 @@ func (a AV) String() string {
 
 type SCCP struct {
 	fn     *ssa.Function
+	vf     *VFunc
 	inject map[ssa.Value]AV
 	val    map[ssa.Value]AV
+	tuple  map[*ssa.Call][]AV // per-result values of inlined helper calls
 	edge   map[[2]int]bool
 	reach  []bool
 }
@@ -109,22 +111,39 @@ func nillable(t types.Type) bool {
 }
 
 func RunSCCP(fn *ssa.Function, inject map[ssa.Value]AV) *SCCP {
-	s := &SCCP{fn: fn, inject: inject, val: map[ssa.Value]AV{}, edge: map[[2]int]bool{}, reach: make([]bool, len(fn.Blocks))}
-	if len(fn.Blocks) == 0 {
+	vf := vfuncOf(fn)
+	s := &SCCP{fn: fn, vf: vf, inject: inject, val: map[ssa.Value]AV{}, tuple: map[*ssa.Call][]AV{}, edge: map[[2]int]bool{}, reach: make([]bool, len(vf.Nodes))}
+	if vf.Entry == nil {
 		return s
 	}
-	s.reach[0] = true
+	// when fn is itself a helper inspected directly, start at its own entry
+	entry := vf.Entry
+	if rootOf(fn) != fn && len(fn.Blocks) > 0 {
+		entry = vf.first[fn.Blocks[0]]
+	}
+	s.reach[entry.Idx] = true
+	mark := func(from, to *VNode, changed *bool) {
+		k := [2]int{from.Idx, to.Idx}
+		if !s.edge[k] {
+			s.edge[k] = true
+			*changed = true
+		}
+		if !s.reach[to.Idx] {
+			s.reach[to.Idx] = true
+			*changed = true
+		}
+	}
 	for iter := 0; iter < 10000; iter++ {
 		changed := false
-		for _, b := range fn.Blocks {
-			if !s.reach[b.Index] {
+		for _, n := range vf.Nodes {
+			if !s.reach[n.Idx] {
 				continue
 			}
-			for _, in := range b.Instrs {
+			terminated := false
+			for _, in := range n.Instrs {
 				if v, ok := in.(ssa.Value); ok {
-					nv := s.evalInstr(v, b)
+					nv := s.evalInstr(v, n)
 					if old := s.val[v]; !old.eq(nv) {
-						// monotone: only move up
 						j := join(old, nv)
 						if !old.eq(j) {
 							s.val[v] = j
@@ -134,42 +153,36 @@ func RunSCCP(fn *ssa.Function, inject map[ssa.Value]AV) *SCCP {
 				}
 				switch t := in.(type) {
 				case *ssa.If:
+					terminated = true
 					c := s.get(t.Cond)
-					mark := func(i int) {
-						to := b.Succs[i].Index
-						k := [2]int{b.Index, to}
-						if !s.edge[k] {
-							s.edge[k] = true
-							changed = true
-						}
-						if !s.reach[to] {
-							s.reach[to] = true
-							changed = true
-						}
-					}
 					switch {
 					case c.K == Cst && c.C.Kind() == constant.Bool:
 						if constant.BoolVal(c.C) {
-							mark(0)
+							mark(n, n.Succs[0], &changed)
 						} else {
-							mark(1)
+							mark(n, n.Succs[1], &changed)
 						}
 					case c.K == Bot:
 					default:
-						mark(0)
-						mark(1)
+						mark(n, n.Succs[0], &changed)
+						mark(n, n.Succs[1], &changed)
 					}
 				case *ssa.Jump:
-					to := b.Succs[0].Index
-					k := [2]int{b.Index, to}
-					if !s.edge[k] {
-						s.edge[k] = true
-						changed = true
+					terminated = true
+					mark(n, n.Succs[0], &changed)
+				case *ssa.Return:
+					terminated = true
+					for _, su := range n.Succs { // helper return → continuation
+						mark(n, su, &changed)
 					}
-					if !s.reach[to] {
-						s.reach[to] = true
-						changed = true
-					}
+				case *ssa.Panic:
+					terminated = true
+				}
+			}
+			if !terminated {
+				// a segment that ends at an inlined call (or falls through)
+				for _, su := range n.Succs {
+					mark(n, su, &changed)
 				}
 			}
 		}
@@ -195,7 +208,16 @@ func (s *SCCP) get(v ssa.Value) AV {
 		return AV{K: Cst, C: x.Value}
 	case *ssa.Function, *ssa.Global, *ssa.Builtin:
 		return avNonNil
-	case *ssa.Parameter, *ssa.FreeVar:
+	case *ssa.Parameter:
+		if site := helperSite[x.Parent()]; site != nil && s.vf.nodeOf[site] != nil {
+			for i, pr := range x.Parent().Params {
+				if pr == x && i < len(site.Call.Args) {
+					return s.get(site.Call.Args[i])
+				}
+			}
+		}
+		return avTop
+	case *ssa.FreeVar:
 		return avTop
 	}
 	if av, ok := s.val[v]; ok {
@@ -204,19 +226,50 @@ func (s *SCCP) get(v ssa.Value) AV {
 	return AV{K: Bot}
 }
 
-func (s *SCCP) evalInstr(v ssa.Value, b *ssa.BasicBlock) AV {
+func (s *SCCP) evalInstr(v ssa.Value, n *VNode) AV {
 	if av, ok := s.inject[v]; ok {
 		return av
 	}
 	switch x := v.(type) {
 	case *ssa.Phi:
 		out := AV{K: Bot}
+		b := x.Block()
+		to := s.vf.first[b]
 		for i, p := range b.Preds {
-			if s.edge[[2]int{p.Index, b.Index}] {
+			from := s.vf.last[p]
+			if from != nil && to != nil && s.edge[[2]int{from.Idx, to.Idx}] {
 				out = join(out, s.get(x.Edges[i]))
 			}
 		}
 		return out
+	case *ssa.Call:
+		if h := isInlined(x); h != nil && s.vf.nodeOf[x] != nil {
+			// value = join over the helper's reachable returns
+			nres := h.Signature.Results().Len()
+			vals := make([]AV, nres)
+			for _, r := range s.vf.rets[h] {
+				rn := s.vf.nodeOf[r]
+				if rn == nil || !s.reach[rn.Idx] {
+					continue
+				}
+				for i := 0; i < nres && i < len(r.Results); i++ {
+					vals[i] = join(vals[i], s.get(r.Results[i]))
+				}
+			}
+			s.tuple[x] = vals
+			if nres == 1 {
+				return vals[0]
+			}
+			return avTop
+		}
+		return avTop
+	case *ssa.Extract:
+		if c, ok := x.Tuple.(*ssa.Call); ok {
+			if vals, ok := s.tuple[c]; ok && x.Index < len(vals) {
+				return vals[x.Index]
+			}
+		}
+		return avTop
 	case *ssa.BinOp:
 		return evalBin(x.Op, s.get(x.X), s.get(x.Y))
 	case *ssa.UnOp:
@@ -292,72 +345,97 @@ func evalBin(op token.Token, a, b AV) AV {
 	return avTop
 }
 
-func (s *SCCP) BlockReachable(b *ssa.BasicBlock) bool { return s.reach[b.Index] }
+func (s *SCCP) BlockReachable(b *ssa.BasicBlock) bool {
+	n := s.vf.first[b]
+	return n != nil && s.reach[n.Idx]
+}
 
 func (s *SCCP) Reachable(in ssa.Instruction) bool {
-	b := in.Block()
-	if b == nil || b.Parent() != s.fn {
+	n := s.vf.nodeOf[in]
+	if n == nil {
 		return false
 	}
-	return s.reach[b.Index]
+	return s.reach[n.Idx]
+}
+
+// EdgeExec: is the CFG edge pred→to executable (phi edge queries)?
+func (s *SCCP) EdgeExec(pred, to *ssa.BasicBlock) bool {
+	a, b := s.vf.last[pred], s.vf.first[to]
+	return a != nil && b != nil && s.edge[[2]int{a.Idx, b.Idx}]
+}
+
+func (s *SCCP) entryNode() *VNode {
+	if rootOf(s.fn) != s.fn && len(s.fn.Blocks) > 0 {
+		return s.vf.first[s.fn.Blocks[0]]
+	}
+	return s.vf.Entry
 }
 
 // reachableAfter: along executable edges, can control flow from just after a reach b?
 func (s *SCCP) reachableAfter(a, b ssa.Instruction) bool {
-	if a.Block() == b.Block() && instrIndex(a) < instrIndex(b) {
+	na, nb := s.vf.nodeOf[a], s.vf.nodeOf[b]
+	if na == nil || nb == nil {
+		return false
+	}
+	if na == nb && posInNode(na, a) < posInNode(nb, b) {
 		return true
 	}
 	seen := map[int]bool{}
-	q := []int{}
-	for _, su := range a.Block().Succs {
-		if s.edge[[2]int{a.Block().Index, su.Index}] {
-			q = append(q, su.Index)
+	var q []*VNode
+	for _, su := range na.Succs {
+		if s.edge[[2]int{na.Idx, su.Idx}] {
+			q = append(q, su)
 		}
 	}
 	for len(q) > 0 {
 		cur := q[0]
 		q = q[1:]
-		if seen[cur] {
+		if seen[cur.Idx] {
 			continue
 		}
-		seen[cur] = true
-		if cur == b.Block().Index {
+		seen[cur.Idx] = true
+		if cur == nb {
 			return true
 		}
-		for _, su := range s.fn.Blocks[cur].Succs {
-			if s.edge[[2]int{cur, su.Index}] {
-				q = append(q, su.Index)
+		for _, su := range cur.Succs {
+			if s.edge[[2]int{cur.Idx, su.Idx}] {
+				q = append(q, su)
 			}
 		}
 	}
 	return false
 }
 
-// Path returns one executable block path from the entry to b (for witnesses).
-func (s *SCCP) Path(b *ssa.BasicBlock) []*ssa.BasicBlock {
-	prev := map[int]int{0: -1}
-	q := []int{0}
+// Path returns one executable node path from the entry to the node of `in` (for witnesses).
+func (s *SCCP) PathTo(in ssa.Instruction) []*VNode {
+	target := s.vf.nodeOf[in]
+	entry := s.entryNode()
+	if target == nil || entry == nil {
+		return nil
+	}
+	prev := map[int]*VNode{entry.Idx: nil}
+	q := []*VNode{entry}
 	for len(q) > 0 {
 		cur := q[0]
 		q = q[1:]
-		if cur == b.Index {
+		if cur == target {
 			break
 		}
-		for _, su := range s.fn.Blocks[cur].Succs {
-			if s.edge[[2]int{cur, su.Index}] {
-				if _, ok := prev[su.Index]; !ok {
-					prev[su.Index] = cur
-					q = append(q, su.Index)
+		for _, su := range cur.Succs {
+			if s.edge[[2]int{cur.Idx, su.Idx}] {
+				if _, ok := prev[su.Idx]; !ok {
+					prev[su.Idx] = cur
+					q = append(q, su)
 				}
 			}
 		}
 	}
-	if _, ok := prev[b.Index]; !ok {
+	if _, ok := prev[target.Idx]; !ok {
 		return nil
 	}
-	var rev []*ssa.BasicBlock
-	for i := b.Index; i >= 0; i = prev[i] {
-		rev = append(rev, s.fn.Blocks[i])
+	var rev []*VNode
+	for n := target; n != nil; n = prev[n.Idx] {
+		rev = append(rev, n)
 	}
 	for i, j := 0, len(rev)-1; i < j; i, j = i+1, j-1 {
 		rev[i], rev[j] = rev[j], rev[i]
@@ -365,7 +443,7 @@ func (s *SCCP) Path(b *ssa.BasicBlock) []*ssa.BasicBlock {
 	return rev
 }
 
-// ---- graph helpers on the plain CFG ----
+// ---- graph helpers on the spliced CFG ----
 
 func instrIndex(in ssa.Instruction) int {
 	for i, x := range in.Block().Instrs {
@@ -378,34 +456,43 @@ func instrIndex(in ssa.Instruction) int {
 
 // dominates reports whether a executes before b on every path reaching b.
 func dominates(a, b ssa.Instruction) bool {
-	if a.Parent() != b.Parent() {
+	if a == nil || b == nil || rootOf(a.Parent()) != rootOf(b.Parent()) {
 		return false
 	}
-	if a.Block() == b.Block() {
-		return instrIndex(a) < instrIndex(b)
+	vf := vfuncOf(a.Parent())
+	na, nb := vf.nodeOf[a], vf.nodeOf[b]
+	if na == nil || nb == nil {
+		return false
 	}
-	return a.Block().Dominates(b.Block())
+	if na == nb {
+		return posInNode(na, a) < posInNode(nb, b)
+	}
+	return na.Dominates(nb)
 }
 
 // reachableFrom: can control flow from just after instruction a reach instruction b?
 func reachableFrom(a, b ssa.Instruction) bool {
-	if a.Parent() != b.Parent() {
+	if a == nil || b == nil || rootOf(a.Parent()) != rootOf(b.Parent()) {
 		return false
 	}
-	if a.Block() == b.Block() && instrIndex(a) < instrIndex(b) {
+	vf := vfuncOf(a.Parent())
+	na, nb := vf.nodeOf[a], vf.nodeOf[b]
+	if na == nil || nb == nil {
+		return false
+	}
+	if na == nb && posInNode(na, a) < posInNode(nb, b) {
 		return true
 	}
 	seen := map[int]bool{}
-	var q []*ssa.BasicBlock
-	q = append(q, a.Block().Succs...)
+	q := append([]*VNode{}, na.Succs...)
 	for len(q) > 0 {
 		cur := q[0]
 		q = q[1:]
-		if seen[cur.Index] {
+		if seen[cur.Idx] {
 			continue
 		}
-		seen[cur.Index] = true
-		if cur == b.Block() {
+		seen[cur.Idx] = true
+		if cur == nb {
 			return true
 		}
 		q = append(q, cur.Succs...)
@@ -413,21 +500,24 @@ func reachableFrom(a, b ssa.Instruction) bool {
 	return false
 }
 
-// inLoop reports whether the instruction's block lies on a CFG cycle.
+// inLoop reports whether the instruction lies on a CFG cycle.
 func inLoop(in ssa.Instruction) bool {
-	b := in.Block()
+	_, n := nodeOfInstr(in)
+	if n == nil {
+		return false
+	}
 	seen := map[int]bool{}
-	q := append([]*ssa.BasicBlock{}, b.Succs...)
+	q := append([]*VNode{}, n.Succs...)
 	for len(q) > 0 {
 		cur := q[0]
 		q = q[1:]
-		if cur == b {
+		if cur == n {
 			return true
 		}
-		if seen[cur.Index] {
+		if seen[cur.Idx] {
 			continue
 		}
-		seen[cur.Index] = true
+		seen[cur.Idx] = true
 		q = append(q, cur.Succs...)
 	}
 	return false
